@@ -139,7 +139,8 @@ theorem grandMean9 : grandMean (fun i j => G9 i j * G9 i j) = 481 / 2 := by
   norm_num
 
 theorem isomapPre9 (x y : Fin 4) : isomapPreOfGeodesics G9 x y = B9 x y := by
-  unfold isomapPreOfGeodesics scale
+  rw [isomapPre_of_symm G9 G9_symm]
+  unfold scale
   rw [centerMatrix_apply, colMeans9, colMeans9, grandMean9]
   fin_cases x <;> fin_cases y <;> simp [G9, B9, sumIdx, negHalf] <;> norm_num
 
